@@ -197,4 +197,69 @@ theorem vlq_complete_prefix (v : Vlq) (xs ys : Bytes) (h : ∀ v', (vlqLong v xs
 
 example : (vlqLong ⟨0, 0⟩ [0x80 + 22, 0x03]).1 = .done 203 := by decide
 
+/-! ## JSON `TapeDecoder` / `Decoder` -/
+
+/-- **Chunking independence (JSON).** The JSON decoder model (`TapeDecoder::decode` read one byte
+at a time, `flush` whenever a new row would exceed the batch size) fed any partition of the
+input emits the same batches (same tape: elements, string bytes, offsets, row count) in the
+same order, ends in the same state, and the final `flush()` gives the same last batch and the
+same ok / `decode` error / `flush` error verdict. -/
+theorem json_chunking_independent (cfg : JCfg) (cs : List Bytes) (xs : Bytes) (hp : IsPartition cs xs) :
+    observe (jFinish cfg) (runChunks (jFeed cfg) jInit cs) = observe (jFinish cfg) (jFeed cfg jInit xs) := by
+  rw [chunking_independent (jStep cfg) (jFeed cfg) (fun _ _ => rfl) _ cs xs hp]
+
+theorem json_chunking_independent_state (cfg : JCfg) (s : JState) (cs : List Bytes) :
+    runChunks (jFeed cfg) s cs = jFeed cfg s cs.flatten :=
+  chunking_independent (jStep cfg) (jFeed cfg) (fun _ _ => rfl) s cs _ rfl
+
+/-- **No emitted batch exceeds the batch size** (for `batch_size ≥ 1`), in any chunking: every
+batch flushed mid-stream and the batch of the final `flush()` has at most `batch_size` rows. -/
+theorem json_batch_size_bound (cfg : JCfg) (hb : 1 ≤ cfg.batchSize) (cs : List Bytes) :
+    (∀ t ∈ (runChunks (jFeed cfg) jInit cs).2, t.curRow ≤ cfg.batchSize) ∧
+    (∀ t ∈ (jFinish cfg (runChunks (jFeed cfg) jInit cs).1).1, t.curRow ≤ cfg.batchSize) := by
+  rw [json_chunking_independent_state]
+  have h := jRun_curRow cfg hb jInit cs.flatten (by simp [jInit, Tape.empty])
+  refine ⟨h.2, ?_⟩
+  intro t ht
+  simp only [jFeed] at ht
+  generalize (runBytes (jStep cfg) jInit cs.flatten).1 = s at h ht
+  have hf := jFlush_curRow cfg s cfg.batchSize h.1
+  unfold jFinish at ht
+  repeat' split at ht
+  all_goals first | exact hf.2 t ht | simp at ht
+
+/-- Errors are sticky (JSON): after a syntax or flush error nothing more is emitted. -/
+theorem json_error_sticky (cfg : JCfg) (s : JState) (h : s.err.isSome) (cs : List Bytes) :
+    runChunks (jFeed cfg) s cs = (s, []) := by
+  rw [json_chunking_independent_state]; exact json_err_absorb cfg s h _
+
+/-- **Refinement of the bulk scans (JSON), partial.**  The four places where
+`TapeDecoder::decode` handles a *run* of bytes at once are equal to stepping through the run:
+`skip_chrs`/`memchr2` inside a string, `advance_until` inside a number, whitespace (and comma)
+skipping, and the `zip` over the rest of a literal.
+Gap: the assembly of these scans into the full `decode` loop is not a Lean function here —
+`jFeed` *is* the byte-at-a-time reading; its agreement with the real bulk loop is checked by the
+correspondence run (tape contents, row counts and error class for every chunking tried). -/
+theorem json_scan_refinement_partial (cfg : JCfg) (s : JState) (rest : List JSt) (run : Bytes)
+    (he : s.err = none) :
+    (s.stack = .string :: rest → (∀ b ∈ run, b ≠ 92 ∧ b ≠ 34) →
+      runBytes (jStep cfg) s run = ({ s with tape := s.tape.pushBytes run }, [])) ∧
+    (s.stack = .number :: rest → (∀ b ∈ run, numChar b = true) →
+      runBytes (jStep cfg) s run = ({ s with tape := s.tape.pushBytes run }, [])) ∧
+    ((∀ b ∈ run, skipsByte s b = true) → runBytes (jStep cfg) s run = (s, [])) ∧
+    (∀ lit idx, s.stack = .literal lit idx :: rest → idx < lit.bytes.length →
+      runBytes (jStep cfg) s (lit.bytes.drop idx) =
+        ({ s with tape := s.tape.pushEl lit.element, stack := rest }, [])) :=
+  ⟨fun hs hr => json_string_run cfg s rest run he hs hr,
+   fun hs hr => json_number_run cfg s rest run he hs hr,
+   fun hr => json_skip_run cfg s run he hr,
+   fun lit idx hs hi => json_literal_run cfg s lit rest idx he hs hi⟩
+
+/-- non-trivial instance: `"a\n" 12 tr|ue` cut inside the escape, the number and the literal -/
+example :
+    let cfg : JCfg := ⟨2, false, fun _ => true⟩
+    observe (jFinish cfg) (runChunks (jFeed cfg) jInit [[34, 97, 92], [110, 34, 32, 49], [], [50, 32, 116, 114], [117, 101, 10]])
+      = observe (jFinish cfg) (jFeed cfg jInit [34, 97, 92, 110, 34, 32, 49, 50, 32, 116, 114, 117, 101, 10]) :=
+  json_chunking_independent _ _ _ rfl
+
 end ArrowModel.C14
